@@ -533,6 +533,28 @@ def run_post(out, case, jobs, owner, rng):
         if (mvar - var < lb - 1e-9 * max(sc, 1.0)).any():
             out.fail(key + ":noise-floor", "the likelihood added less than its noise lower bound %g to the variance" % lb, desc,
                      impl=(mvar - var).tolist(), model=lb)
+    # batched inputs (two replicas, the second shifted): the non-2D branch of exact_predictive_covar
+    desc = dict(base, flag="batch")
+    key = "post:%s:%s:batch" % (spec["fam"], case["geom"])
+    if FAMILIES[spec["fam"]].get("domain") is None:
+        try:
+            with torch.no_grad(), warnings.catch_warnings():
+                warnings.simplefilter("ignore")
+                Xb, yb, Xsb = torch.stack([X, X + 0.25]), torch.stack([y, -y]), torch.stack([Xs, Xs + 0.25])
+                kern = build_kernel(spec)
+                lik = gpytorch.likelihoods.GaussianLikelihood(); lik.noise = case["noise"]
+                model = GP(Xb, yb, lik, kern); model.eval(); lik.eval()
+                covb = model(Xsb).covariance_matrix
+                Kb = build_kernel(spec)(Xsb).to_dense()
+            out.case(dict(kind="post", fam=spec["fam"], geom=case["geom"], n=n, t=t, flag="batch", pseed=case["pseed"]), n >= 2,
+                     label="post:batch")
+            for b in range(2):
+                scb = scale_of(Kb[b])
+                check_matrix(out, key + ":cov", "batched exact posterior covariance (element %d)" % b, desc, covb[b], jobs, owner, ref=scb)
+                check_matrix(out, key + ":prior-minus-post", "batched prior minus posterior covariance (element %d)" % b, desc,
+                             Kb[b] - covb[b], jobs, owner, ref=scb)
+        except Exception as e:
+            out.fail("post-exception:%s:batch:%s" % (spec["fam"], type(e).__name__), "batched posterior computation raised %r" % e, desc)
     # monotonicity: add the observations one at a time (fresh model per prefix, same hyper-parameters)
     desc = dict(base, flag="monotone")
     key = "post:%s:%s:monotone" % (spec["fam"], case["geom"])
